@@ -72,24 +72,28 @@ variable (s : Schema) (vars vars' : Vars)
 def Ag (x : String) : Prop := lookupD vars' x = lookupD vars x
 
 mutual
-/-- `RSel P x y`: `y` is `x` with argument lists (and nested selections) replaced by ones that evaluate alike when the
-selection is executed at runtime object type `P`; directives only mention variables on which the maps agree -/
+/-- `RSel P x y`: `y` is `x` up to source locations, with argument lists (and nested selections) replaced by ones that
+evaluate alike when the selection is executed at runtime object type `P`, and directives that decide inclusion alike -/
 def RSel : String → Selection → Selection → Prop
-  | P, .field al nm args dirs sel loc, y =>
-    (∀ v ∈ dirsVars dirs, Ag vars vars' v) ∧
-    ∃ args' sel', y = .field al nm args' dirs sel' loc ∧
+  | P, .field al nm args dirs sel _, y =>
+    ∃ al' nm' args' dirs' sel' loc', y = .field al' nm' args' dirs' sel' loc' ∧
+      al'.map (·.value) = al.map (·.value) ∧ nm'.value = nm.value ∧
+      Exec.included s vars' dirs' = Exec.included s vars dirs ∧
       ∀ fd, Exec.fieldDef? s P nm.value = some fd →
         getArgumentValues s fd.args args' vars' = getArgumentValues s fd.args args vars ∧
         ∀ T, (s.isObject fd.type.namedName = true → T = fd.type.namedName) → ROpt T sel sel'
-  | P, .inline tc dirs ss loc, y =>
-    (∀ v ∈ dirsVars dirs, Ag vars vars' v) ∧
-    ∃ ss', y = .inline tc dirs ss' loc ∧ (Exec.condApplies s tc P = true → RSet P ss ss')
-  | _, .spread n d l, y => (∀ v ∈ dirsVars d, Ag vars vars' v) ∧ y = .spread n d l
+  | P, .inline tc dirs ss _, y =>
+    ∃ tc' dirs' ss' loc', y = .inline tc' dirs' ss' loc' ∧
+      (∀ Q, Exec.condApplies s tc' Q = Exec.condApplies s tc Q) ∧
+      Exec.included s vars' dirs' = Exec.included s vars dirs ∧
+      (Exec.condApplies s tc P = true → RSet P ss ss')
+  | _, .spread n d _, y =>
+    ∃ n' d' l', y = .spread n' d' l' ∧ n'.value = n.value ∧ Exec.included s vars' d' = Exec.included s vars d
 def ROpt : String → Option SelectionSet → Option SelectionSet → Prop
   | _, none, y => y = none
   | P, some ss, y => ∃ ss', y = some ss' ∧ RSet P ss ss'
 def RSet : String → SelectionSet → SelectionSet → Prop
-  | P, .mk sels loc, y => ∃ sels', y = .mk sels' loc ∧ RList P sels sels'
+  | P, .mk sels _, y => ∃ sels' loc', y = .mk sels' loc' ∧ RList P sels sels'
 def RList : String → List Selection → List Selection → Prop
   | _, [], y => y = []
   | P, x :: xs, y => ∃ x' xs', y = x' :: xs' ∧ RSel P x x' ∧ RList P xs xs'
@@ -102,17 +106,19 @@ theorem RSel_refl : ∀ (x : Selection) (P : String), (∀ v ∈ selVars x, Ag v
   | .field al nm args dirs sel loc, P, h => by
     simp only [selVars, List.mem_append] at h
     simp only [RSel]
-    refine ⟨fun v hv => h v (Or.inl (Or.inr hv)), args, sel, rfl, fun fd _ => ⟨?_, fun T _ => ?_⟩⟩
+    refine ⟨al, nm, args, dirs, sel, loc, rfl, rfl, rfl,
+      included_congr s vars' vars dirs (fun v hv => h v (Or.inl (Or.inr hv))), fun fd _ => ⟨?_, fun T _ => ?_⟩⟩
     · exact getArgumentValues_congr s fd.args args vars' vars (fun v hv => h v (Or.inl (Or.inl hv)))
     · exact ROpt_refl sel T (fun v hv => h v (Or.inr hv))
   | .inline tc dirs ss loc, P, h => by
     simp only [selVars, List.mem_append] at h
     simp only [RSel]
-    exact ⟨fun v hv => h v (Or.inl hv), ss, rfl, fun _ => RSet_refl ss P (fun v hv => h v (Or.inr hv))⟩
+    exact ⟨tc, dirs, ss, loc, rfl, fun _ => rfl, included_congr s vars' vars dirs (fun v hv => h v (Or.inl hv)),
+      fun _ => RSet_refl ss P (fun v hv => h v (Or.inr hv))⟩
   | .spread n d l, P, h => by
     simp only [selVars] at h
     simp only [RSel]
-    exact ⟨h, trivial⟩
+    exact ⟨n, d, l, rfl, rfl, included_congr s vars' vars d h⟩
 theorem ROpt_refl : ∀ (x : Option SelectionSet) (P : String), (∀ v ∈ optSetVars x, Ag vars vars' v) → ROpt s vars vars' P x x
   | none, P, _ => by simp [ROpt]
   | some ss, P, h => by
@@ -123,7 +129,7 @@ theorem RSet_refl : ∀ (x : SelectionSet) (P : String), (∀ v ∈ setVars x, A
   | .mk sels loc, P, h => by
     simp only [setVars] at h
     simp only [RSet]
-    exact ⟨sels, rfl, RList_refl sels P h⟩
+    exact ⟨sels, loc, rfl, RList_refl sels P h⟩
 theorem RList_refl : ∀ (xs : List Selection) (P : String), (∀ v ∈ selsVars xs, Ag vars vars' v) → RList s vars vars' P xs xs
   | [], P, _ => by simp [RList]
   | x :: xs, P, h => by
@@ -187,11 +193,12 @@ theorem normSel_rel : ∀ (x : Selection) (P : String) (st : NState) (final : Li
   | .field al nm args dirs sel loc, P, st, final, hes, hlex, hag, hfin, hre => by
     simp only [selVars, List.mem_append] at hag
     simp only [LexSel] at hlex
-    have hdirs : ∀ v ∈ dirsVars dirs, Ag vars vars' v := fun v hv => hag v (Or.inl (Or.inr hv))
+    have hdirs : Exec.included s vars' dirs = Exec.included s vars dirs :=
+      included_congr s vars' vars dirs (fun v hv => hag v (Or.inl (Or.inr hv)))
     cases hfd : fieldDefN s P nm.value with
     | none =>
       simp only [normSel, hfd, WalkGoal, RSel]
-      refine ⟨⟨hdirs, args, sel, rfl, fun fd hfd' => ?_⟩, hes, [], by simp⟩
+      refine ⟨⟨al, nm, args, dirs, sel, loc, rfl, rfl, rfl, hdirs, fun fd hfd' => ?_⟩, hes, [], by simp⟩
       rw [hsch.2 P nm.value fd hfd'] at hfd; cases hfd
     | some fd =>
       obtain ⟨hnd, hin⟩ := hsch.1 P nm.value fd hfd
@@ -207,7 +214,8 @@ theorem normSel_rel : ∀ (x : Selection) (P : String) (st : NState) (final : Li
         obtain ⟨hrel, hesOK2, esO, hesO⟩ := ihO
         have hreA : Realises s vars' (normArgs s fd.args args st).2.entries := by
           rw [hesF, hesO, List.append_assoc] at hre; exact realises_prefix hre
-        refine ⟨⟨hdirs, _, _, rfl, fun fd' hfd' => ?_⟩, hesOK2, esA ++ esO, by rw [hesO, hesA, List.append_assoc]⟩
+        refine ⟨⟨al, nm, _, dirs, _, loc, rfl, rfl, rfl, hdirs, fun fd' hfd' => ?_⟩, hesOK2, esA ++ esO,
+          by rw [hesO, hesA, List.append_assoc]⟩
         have : fd' = fd := by
           have := hsch.2 P nm.value fd' hfd'; rw [hfd] at this; exact (Option.some.inj this).symm
         subst this
@@ -220,7 +228,7 @@ theorem normSel_rel : ∀ (x : Selection) (P : String) (st : NState) (final : Li
         obtain ⟨esF, hesF⟩ := hfin
         have hreA : Realises s vars' (normArgs s fd.args args st).2.entries := by
           rw [hesF] at hre; exact realises_prefix hre
-        refine ⟨⟨hdirs, _, _, rfl, fun fd' hfd' => ?_⟩, hesOK1, esA, hesA⟩
+        refine ⟨⟨al, nm, _, dirs, _, loc, rfl, rfl, rfl, hdirs, fun fd' hfd' => ?_⟩, hesOK1, esA, hesA⟩
         have : fd' = fd := by
           have := hsch.2 P nm.value fd' hfd'; rw [hfd] at this; exact (Option.some.inj this).symm
         subst this
@@ -234,7 +242,8 @@ theorem normSel_rel : ∀ (x : Selection) (P : String) (st : NState) (final : Li
     simp only [normSel, WalkGoal, RSel]
     obtain ⟨hrel, hesOK, es, hes'⟩ := normSet_rel ss (inlineParent s P tc) st final hes hlex
       (fun v hv => hag v (Or.inr hv)) hfin hre
-    refine ⟨⟨fun v hv => hag v (Or.inl hv), _, rfl, fun hc => ?_⟩, hesOK, es, hes'⟩
+    refine ⟨⟨tc, dirs, _, loc, rfl, fun _ => rfl,
+      included_congr s vars' vars dirs (fun v hv => hag v (Or.inl hv)), fun hc => ?_⟩, hesOK, es, hes'⟩
     -- when the condition applies at P, the walk's parent is P
     have : inlineParent s P tc = P := by
       cases tc with
@@ -260,7 +269,7 @@ theorem normSel_rel : ∀ (x : Selection) (P : String) (st : NState) (final : Li
   | .spread n d l, P, st, final, hes, hlex, hag, hfin, hre => by
     simp only [selVars] at hag
     simp only [normSel, WalkGoal, RSel]
-    exact ⟨⟨hag, trivial⟩, hes, [], by simp⟩
+    exact ⟨⟨n, d, l, rfl, rfl, included_congr s vars' vars d hag⟩, hes, [], by simp⟩
 theorem normOpt_rel : ∀ (x : Option SelectionSet) (P : String) (st : NState) (final : List Entry),
     EntriesOK s st.entries → LexOpt x → (∀ v ∈ optSetVars x, Ag vars vars' v) →
     (∃ es, final = (normOpt s P x st).2.entries ++ es) → Realises s vars' final →
@@ -285,7 +294,7 @@ theorem normSet_rel : ∀ (x : SelectionSet) (P : String) (st : NState) (final :
     simp only [normSet] at hfin
     simp only [normSet, WalkGoal, RSet]
     obtain ⟨hrel, hesOK, es, hes'⟩ := normList_rel sels P st final hes hlex hag hfin hre
-    exact ⟨⟨_, rfl, hrel⟩, hesOK, es, hes'⟩
+    exact ⟨⟨_, loc, rfl, hrel⟩, hesOK, es, hes'⟩
 theorem normList_rel : ∀ (xs : List Selection) (P : String) (st : NState) (final : List Entry),
     EntriesOK s st.entries → LexList xs → (∀ v ∈ selsVars xs, Ag vars vars' v) →
     (∃ es, final = (normList s P xs st).2.entries ++ es) → Realises s vars' final →
